@@ -28,11 +28,19 @@ def sh(cmd, cwd=None, timeout=1800, extra=None):
     except subprocess.TimeoutExpired:
         return 124, "timeout"
 
+COMMIT = subprocess.run("git -C /repo rev-parse HEAD", shell=True, capture_output=True, text=True).stdout.strip()
+BASE = "/tmp/mut/base-" + COMMIT[:10]
+
 def sites():
+    # the sweep is pinned to the commit that is HEAD when it starts: sites are
+    # listed from, and mutants applied to, an extracted copy of that commit, so
+    # that later commits in /repo do not shift the site numbers under it
+    shutil.rmtree(BASE, ignore_errors=True); os.makedirs(BASE)
+    sh("git -C /repo archive %s | tar -x -C %s" % (COMMIT, BASE))
     all_ = []
     for f in FILES:
         if FILT and FILT not in f: continue
-        rc, out = sh("%s/bin/mutate list /repo/%s" % (ROOT, f))
+        rc, out = sh("%s/bin/mutate list %s/%s" % (ROOT, BASE, f))
         for l in out.splitlines():
             i, line, op, desc = l.split("\t")
             all_.append((f, int(i), int(line), op, desc))
@@ -52,8 +60,8 @@ def one(m):
     res = {"id": mid, "file": f, "site": i, "line": line, "op": op, "desc": desc}
     shutil.rmtree(d, ignore_errors=True); os.makedirs(d)
     try:
-        sh("git -C /repo archive HEAD | tar -x -C %s" % d)
-        rc, out = sh("%s/bin/mutate apply /repo/%s %d %s/%s" % (ROOT, f, i, d, f))
+        sh("git -C /repo archive %s | tar -x -C %s" % (COMMIT, d))
+        rc, out = sh("%s/bin/mutate apply %s/%s %d %s/%s" % (ROOT, BASE, f, i, d, f))
         if rc != 0:
             res["status"] = "apply_failed"; return res
         rc, out = sh("go build ./...", cwd=d, timeout=300)
